@@ -22,11 +22,15 @@ func init() {
 	sym.Register("c09.HRead", HRead)
 }
 
-var operands = []string{"/w/a/a", "/w/a", "/w/c", "/w/b", "/w", "/"}
-var operandKinds = []string{"file", "dir", "missing", "file2", "scratch", "root"}
+var operands = []string{"/w/a/a", "/w/a", "/w/c", "/w/b", "/w", "/", "a/a", "a", "c", "..", "./a/../b", ""}
+var operandKinds = []string{"file", "dir", "missing", "file2", "scratch", "root", "rel-file", "rel-dir", "rel-missing", "rel-dotdot", "rel-unclean", "empty"}
 
-// NumOperands is len(operands).
-const NumOperands = 6
+// NumOperands is len(operands); the first NumAbsOperands are absolute, the
+// others are relative and are used after Chdir("/w") through the view.
+const NumOperands = 12
+
+// NumAbsOperands is the number of absolute operands.
+const NumAbsOperands = 6
 
 var mutators = []string{"Chmod", "Chown", "Chtimes", "Create", "CreateTemp", "Lchown", "Link", "Mkdir", "MkdirAll", "MkdirTemp", "OpenFile", "Remove", "RemoveAll", "Rename", "Symlink", "Truncate", "WriteFile"}
 
@@ -89,8 +93,17 @@ func HMutate(kind, seed, via, m int) {
 	v, tr := view(ro, via)
 	name := mutators[m]
 	pi := sym.Choose("p", NumOperands)
-	p := tr(operands[pi])
+	p := operands[pi]
 	q := tr("/w/new")
+	if pi < NumAbsOperands {
+		p = tr(p)
+	} else {
+		// relative operand: the working directory is set through the view first
+		_ = v.Chdir(tr("/w"))
+		if sym.Bool("relq") {
+			q = "new"
+		}
+	}
 	label := hx.KindName(kind) + "|" + name + "|" + operandKinds[pi]
 	if via >= 1 {
 		label += "|via-Sub(" + subDirs[via-1] + ")"
@@ -302,7 +315,7 @@ func HRead(kind, seed, m int) {
 	hx.Seed(base, seed)
 	ro := rofs.New(base)
 	name := readers[m]
-	pi := sym.Choose("p", NumOperands)
+	pi := sym.Choose("p", NumAbsOperands)
 	p := operands[pi]
 	label := hx.KindName(kind) + "|" + name + "|" + operandKinds[pi]
 	sym.Label(label)
